@@ -7,9 +7,12 @@ Property theorems only; helper lemmas are in `Lemmas/TeXString.lean`, the model 
 `textLength`) in `Spec/TeXString.lean`.
 -/
 import PybtexModel.Lemmas.TeXString
+import PybtexModel.Lemmas.TeXStringU
+import PybtexModel.Lemmas.TeXSplit
+import PybtexModel.Model.Width
 
 namespace Pybtex.Props
-open Pybtex Spec
+open Pybtex Spec TeXU
 
 /-- the example string `ab{\'e x}{c d}e` used by the non-vacuity instances -/
 private abbrev ex1 : Str := "ab{\\'e x}{c d}e".toList
@@ -391,5 +394,411 @@ theorem C12_split_fuel (sep : Sep) (s : Str) (fuel : Nat) (h : s.length < fuel) 
     reSplitAux sep fuel none [] s = reSplit sep s :=
   ⟨splitLoop_fuel sep fuel (s.length + 1) s [] none h (by omega),
    reSplitAux_fuel sep fuel (s.length + 1) none [] s h (by omega)⟩
+
+/-! ## Round 2
+
+### the primitives over the character tables of the running interpreter
+
+`Model/TeXStringU.lean` has the character-class dependent primitives generic in the character
+operations; `uniOps` = `str.isalnum`, `str.isalpha` and the single-character part of
+`str.lower` / `str.upper` of the interpreter the check runs on (regenerated tables).  This is what
+the correspondence check drives.  `caseDomain` (decidable) is the set of strings on which
+character-by-character case mapping IS `str.lower` / `str.upper`; the theorems below hold for the
+model on every string, they speak about the code on `caseDomain` (outside: known finding
+C12-case-length-changing-letter, the clauses are then checked on the implementation alone). -/
+
+/-- the generic primitives at the ASCII operations are the primitives of round 1 (the theorems
+above are about the same functions) -/
+theorem C12_generic_at_ascii (s : Str) (m : CaseMode) :
+    bibtexPurifyG asciiOps s = bibtexPurify s ∧ changeCaseG asciiOps s m = changeCase s m ∧
+      bibtexFirstLetterG asciiOps s = bibtexFirstLetter s :=
+  ⟨bibtexPurifyG_ascii s, changeCaseG_ascii s m, bibtexFirstLetterG_ascii s⟩
+
+/-- purify yields only alphanumerics (`str.isalnum` of the running interpreter) and blanks -/
+theorem C12_purify_range_unicode (s p : Str) (h : bibtexPurifyG uniOps s = some p) :
+    ∀ c ∈ p, isAlnumU c = true ∨ c = ' ' := by
+  obtain ⟨toks, _, rfl⟩ := Option.map_eq_some_iff.1 h
+  intro c hc
+  obtain ⟨l, hl, hcl⟩ := List.mem_flatten.1 hc
+  obtain ⟨t, _, rfl⟩ := List.mem_map.1 hl
+  exact purifyTokG_range uniOps t c hcl
+
+/-- purify is idempotent (Unicode alphanumerics) -/
+theorem C12_purify_idem_unicode (s p : Str) (h : bibtexPurifyG uniOps s = some p) :
+    bibtexPurifyG uniOps p = some p :=
+  purifyG_fixed uniOps uniOps_alnum_braces.1 uniOps_alnum_braces.2 p (C12_purify_range_unicode s p h)
+
+/-- é ² ① 中 are alphanumerics, the combining accent and the dash are not -/
+theorem C12_purify_range_unicode_nonvacuous :
+    bibtexPurifyG uniOps "é²①中{\\'e}–x".toList = some "é²①中ex".toList ∧
+      bibtexPurifyG uniOps "é²①中ex".toList = some "é²①中ex".toList := by decide +kernel
+
+theorem C12_purify_idem_unicode_nonvacuous :
+    bibtexPurifyG uniOps "Straße-1".toList = some "Straße 1".toList ∧
+      bibtexPurifyG uniOps "Straße 1".toList = some "Straße 1".toList := by decide +kernel
+
+/-- "Equal up to case" has a canonical form: `caseFoldC c = lower (upper c)` absorbs both case
+mappings and leaves the structural characters (braces, backslash, blank, colon, white space)
+alone and unreachable.  (`lower` alone is not canonical: ı ↦ I ↦ i.) -/
+theorem C12_case_fold_canonical (c : Char) :
+    caseFoldC (lowerUC c) = caseFoldC c ∧ caseFoldC (upperUC c) = caseFoldC c ∧
+      (∀ x, isStruct x = true → (caseFoldC c = x ↔ c = x)) :=
+  ⟨caseFoldC_lowerUC c, caseFoldC_upperUC c, fun _ hx => caseFoldC_struct hx⟩
+
+theorem C12_case_fold_canonical_nonvacuous :
+    caseFoldC 'ı' = 'i' ∧ caseFoldC 'I' = 'i' ∧ lowerUC 'ı' = 'ı' ∧ caseFoldC 'ſ' = 's' ∧
+      caseFoldC 'É' = 'é' ∧ caseFoldC '{' = '{' ∧ isStruct '{' = true := by decide +kernel
+
+/-- case change keeps every letter up to case and every other character (when every special
+character is closed) -/
+theorem C12_case_letters_unicode (s r : Str) (m : CaseMode) (hs : specialsClosed s = true)
+    (h : changeCaseG uniOps s m = some r) : r.map caseFoldC = s.map caseFoldC :=
+  uniLaws.case_letters s r m hs h
+
+/-- case change preserves the length (when every special character is closed); this is a fact
+about the code on `caseDomain` only -/
+theorem C12_case_len_unicode (s r : Str) (m : CaseMode) (hs : specialsClosed s = true)
+    (h : changeCaseG uniOps s m = some r) : r.length = s.length :=
+  length_eq_of_fold_eq (C12_case_letters_unicode s r m hs h)
+
+/-- case change is idempotent (when every special character is closed) -/
+theorem C12_case_idem_unicode (s r : Str) (m : CaseMode) (hs : specialsClosed s = true)
+    (h : changeCaseG uniOps s m = some r) : changeCaseG uniOps r m = some r :=
+  uniLaws.case_idem s r m hs h
+
+theorem C12_case_letters_unicode_nonvacuous :
+    specialsClosed "éA{\\'e ıx}{c é}ſ: Дg".toList = true ∧
+      changeCaseG uniOps "éA{\\'e ıx}{c é}ſ: Дg".toList .u =
+        some "ÉA{\\'e IX}{c é}S: ДG".toList ∧
+      changeCaseG uniOps "ÉA{\\'e IX}{c é}S: ДG".toList .u =
+        some "ÉA{\\'e IX}{c é}S: ДG".toList := by decide +kernel
+
+theorem C12_case_len_unicode_nonvacuous :
+    caseDomain "École {\\'e}".toList = true ∧
+      changeCaseG uniOps "École {\\'e}".toList .l = some "école {\\'e}".toList := by decide +kernel
+
+theorem C12_case_idem_unicode_nonvacuous :
+    changeCaseG uniOps "ÉCOLE: ÉTÉ".toList .t = some "École: Été".toList ∧
+      changeCaseG uniOps "École: Été".toList .t = some "École: Été".toList := by
+  decide +kernel
+
+/-- the domain of the case-changing model: the letters whose case mapping changes the length and
+the capital sigma are outside (there the model keeps the length, the code does not: ß ↦ SS) -/
+theorem C12_case_domain :
+    caseDomain "Strasse {\\ss} éıſ".toList = true ∧ caseDomain "Straße".toList = false ∧
+      caseDomain [Char.ofNat 0x130] = false ∧ caseDomain [Char.ofNat 0x149] = false ∧
+      caseDomain [Char.ofNat 0x1F0] = false ∧ caseDomain [Char.ofNat 0xFB01] = false ∧
+      caseDomain [Char.ofNat 0x3A3] = false ∧
+      Gen.upperMultiC12.length = 102 ∧ Gen.lowerMulti = [0x130] := by decide +kernel
+
+/-- inside braces case change changes nothing except the non-command words of a special
+character (Unicode case mapping; letters up to case by `caseFoldC`) -/
+theorem C12_case_braces_unicode (s r : Str) (m : CaseMode) (toks : List Tok) (hs : scan s = some toks)
+    (h : changeCaseG uniOps s m = some r) :
+    ∃ toks' : List Tok, r = (toks'.map Prod.fst).flatten ∧
+      List.Forall₂ (fun t t' : Tok =>
+        t'.2 = t.2 ∧
+        (1 ≤ t.2 → ¬ (t.2 = 1 ∧ startsWithBackslash t.1 = true) → t'.1 = t.1) ∧
+        (t.2 = 1 → startsWithBackslash t.1 = true →
+          ∃ ws', t'.1 = joinWith [' '] ws' ∧
+            List.Forall₂ (fun w w' => (startsWithBackslash w = true → w' = w) ∧ w'.map caseFoldC = w.map caseFoldC)
+              (splitSpace t.1) ws')) toks toks' := by
+  simp only [changeCaseG, hs, Option.map_some, Option.some.injEq] at h
+  subst h
+  exact ⟨caseToksG uniOps m .start toks, changeCaseAuxG_eq uniOps m toks .start, uniLaws.caseToks_rel m toks .start⟩
+
+theorem C12_case_braces_unicode_nonvacuous :
+    changeCaseG uniOps "é{\\'e é \\aa}{c é}{{\\o}}".toList .u =
+      some "É{\\'e É \\aa}{c é}{{\\o}}".toList := by decide +kernel
+
+/-! ### the mode string of `change.case$` -/
+
+/-- Every mode letter: the built-in looks at the FIRST character of the mode string only, in either
+case (`l L`, `u U`, `t T`; no other character of Unicode lower-cases to one of them); an empty
+mode string and any other first character are BibTeX errors. -/
+theorem C12_change_case_mode (o : CharOps) (s : Str) :
+    changeCaseBuiltin o s [] = .error .emptyMode ∧
+    ∀ (c : Char) (rest : Str), changeCaseBuiltin o s (c :: rest) =
+      (let run := fun m => match changeCaseG o s m with | none => Except.error BuiltinErr.tooDeep | some r => .ok r
+       if c = 'l' ∨ c = 'L' then run .l
+       else if c = 'u' ∨ c = 'U' then run .u
+       else if c = 't' ∨ c = 'T' then run .t
+       else .error .incorrectMode) := by
+  refine ⟨rfl, fun c rest => ?_⟩
+  obtain ⟨h1, h2, h3⟩ := lowerUC_mode c
+  simp only [changeCaseBuiltin, modeLetter, h1, h2, h3]
+  by_cases hl : c = 'l' ∨ c = 'L'
+  · simp only [if_pos hl]; cases changeCaseG o s CaseMode.l <;> rfl
+  · simp only [if_neg hl]
+    by_cases hu : c = 'u' ∨ c = 'U'
+    · simp only [if_pos hu]; cases changeCaseG o s CaseMode.u <;> rfl
+    · simp only [if_neg hu]
+      by_cases ht : c = 't' ∨ c = 'T'
+      · simp only [if_pos ht]; cases changeCaseG o s CaseMode.t <;> rfl
+      · simp only [if_neg ht]
+
+/-- observable part of a built-in's result (for the decidable instances below) -/
+private def obs : Except BuiltinErr Str → Option Str × Option BuiltinErr
+  | .ok r => (some r, none)
+  | .error e => (none, some e)
+
+theorem C12_change_case_mode_nonvacuous :
+    obs (changeCaseBuiltin uniOps "aB cD".toList "Title".toList) = (some "ab cd".toList, none) ∧
+      obs (changeCaseBuiltin uniOps "aB".toList "U".toList) = (some "AB".toList, none) ∧
+      obs (changeCaseBuiltin uniOps "aB".toList "x".toList) = (none, some .incorrectMode) ∧
+      obs (changeCaseBuiltin uniOps "aB".toList []) = (none, some .emptyMode) := by decide +kernel
+
+/-! ### splitting: strip, every input, maximality -/
+
+/-- what the call sites get: the unstripped pieces, each stripped of the white space at its two
+ends (nothing else is removed: `p = l ++ strip p ++ r` with `l`, `r` white space), and — for the
+default separator only — the empty ones dropped; `split_name_list` strips and keeps empties -/
+theorem C12_split_strip (sep : Sep) (s : Str) :
+    splitTex sep s = (if sep = .space then ((splitTexRaw sep s).map strip).filter (· ≠ [])
+                      else (splitTexRaw sep s).map strip) ∧
+    splitNameList s = (splitTexRaw .and s).map strip ∧
+    (∀ p : Str, ∃ l r, p = l ++ strip p ++ r ∧ l.all isWs = true ∧ r.all isWs = true) :=
+  ⟨rfl, rfl, strip_decomp⟩
+
+theorem C12_split_strip_nonvacuous :
+    splitTexRaw .comma "a , {b, c},  ,d ".toList = ["a ".toList, " {b, c}".toList, "  ".toList, "d ".toList] ∧
+      splitTex .comma "a , {b, c},  ,d ".toList = ["a".toList, "{b, c}".toList, [], "d".toList] ∧
+      splitNameList "A and  and B".toList = ["A".toList, [], "B".toList] := by decide +kernel
+
+/-- on balanced input the stripped parts (what the call sites get) are balanced as well -/
+theorem C12_split_stripped_balanced (sep : Sep) (s : Str) (hb : balanced s = true) :
+    ∀ p ∈ splitTex sep s, balanced p = true := by
+  intro p hp
+  have key : ∀ q ∈ (splitTexRaw sep s).map strip, balanced q = true := by
+    intro q hq
+    obtain ⟨q0, hq0, rfl⟩ := List.mem_map.1 hq
+    exact balanced_strip q0 (C12_split_braces sep s hb q0 hq0)
+  rw [(C12_split_strip sep s).1] at hp
+  split at hp
+  · exact key p (List.mem_filter.1 hp).1
+  · exact key p hp
+
+theorem C12_split_stripped_balanced_nonvacuous :
+    balanced "de {la Vall{\\'e}e} ~Poussin ".toList = true ∧
+      splitTex .space "de {la Vall{\\'e}e} ~Poussin ".toList = ["de".toList, "{la Vall{\\'e}e}".toList, "Poussin".toList] := by
+  decide +kernel
+
+/-- EVERY string (balanced or not), after the repair of `_find_closing_brace`: the input is the
+parts in order with one separator match between consecutive parts, and every dropped separator
+lies at brace level 0, where the level is the running brace depth in which an unmatched closing
+brace is an ordinary character — a group that is never closed extends to the end of the string
+and is never split. -/
+theorem C12_split_top (sep : Sep) (s : Str) :
+    (s = [] → splitTexRaw sep s = []) ∧
+    (s ≠ [] → SplitsTop
+      (match sep with
+        | .space => isSpaceSep
+        | .comma => fun m => m == [',']
+        | .hyphen => fun m => m == ['-']
+        | .and => isAndSep) s (splitTexRaw sep s)) := by
+  constructor
+  · intro hs; subst hs; simp [splitTexRaw, splitLoop_succ, headStep, finish]
+  · intro hs
+    obtain ⟨p, ps, h1, h2, _⟩ := splitLoop_gen sep (s.length + 1) s none (by omega) (Or.inl hs)
+    rw [splitTexRaw, h1]
+    cases sep <;> exact h2
+
+/-- the group of `{x{y} z w` is never closed: nothing is split (before the repair the code gave
+`{x{y}`, `z`, `w`); an unmatched closing brace is an ordinary character -/
+theorem C12_split_top_nonvacuous :
+    splitTexRaw .space "{x{y} z w".toList = ["{x{y} z w".toList] ∧
+      splitTexRaw .space "a} b {c d".toList = ["a}".toList, "b".toList, "{c d".toList] ∧
+      depthSat 0 "a}".toList = 0 ∧ balanced "{x{y} z w".toList = false := by decide +kernel
+
+/-- MAXIMALITY, every string: no part contains a match of the separator at brace level 0 (level as
+in `C12_split_top`; for the default separator a match is a white-space character or a tie that
+does not follow a backslash).  With `C12_split_top` / `C12_split_drops_seps` this pins the
+parts down: they are cut at EVERY brace-level-0 separator and nowhere else. -/
+theorem C12_split_maximal (sep : Sep) (s : Str) :
+    ∀ p ∈ splitTexRaw sep s, ¬ HasTopSep
+      (match sep with
+        | .space => spaceMatchAfter
+        | .comma => commaMatchAfter
+        | .hyphen => hyphenMatchAfter
+        | .and => andMatchAfter) p := by
+  intro p hp
+  by_cases hs : s = []
+  · subst hs; simp [splitTexRaw, splitLoop_succ, headStep, finish] at hp
+  · obtain ⟨q, qs, h1, _, h3⟩ := splitLoop_gen sep (s.length + 1) s none (by omega) (Or.inl hs)
+    rw [splitTexRaw, h1] at hp
+    have := not_hasTopSep_of_topFree sep p (h3 p (by simpa using hp))
+    cases sep <;> exact this
+
+/-- a tie after a backslash is no separator, a brace-level-0 blank is: `HasTopSep` holds of the
+unsplit text and of none of its parts -/
+theorem C12_split_maximal_nonvacuous :
+    HasTopSep spaceMatchAfter "a\\~b {c d}~e".toList ∧
+      splitTexRaw .space "a\\~b {c d}~e".toList = ["a\\~b".toList, "{c d}".toList, "e".toList] ∧
+      splitTexRaw .and "a and b\tand\tc".toList = ["a".toList, "b\tand\tc".toList] :=
+  ⟨⟨"a\\~b".toList, [' '], "{c d}~e".toList, by decide, by decide, by decide⟩, by decide +kernel, by decide +kernel⟩
+
+/-- The two halves together (this closes the loophole that `SplitsTo.one` alone leaves: a splitter
+that never splits satisfies `C12_split_drops_seps` but not this): for every non-empty string the
+pieces are exactly a decomposition of the input into parts WITHOUT a top-level separator match,
+separated by top-level separator matches. -/
+theorem C12_split_characterised (sep : Sep) (s : Str) (hs : s ≠ []) :
+    SplitsTop
+      (match sep with
+        | .space => isSpaceSep
+        | .comma => fun m => m == [',']
+        | .hyphen => fun m => m == ['-']
+        | .and => isAndSep) s (splitTexRaw sep s) ∧
+    ∀ p ∈ splitTexRaw sep s, ¬ HasTopSep
+      (match sep with
+        | .space => spaceMatchAfter
+        | .comma => commaMatchAfter
+        | .hyphen => hyphenMatchAfter
+        | .and => andMatchAfter) p :=
+  ⟨(C12_split_top sep s).2 hs, C12_split_maximal sep s⟩
+
+/-- the unsplit text is a (trivial) `SplitsTo` decomposition of itself, but it has a top-level
+separator: it is not what the splitter may return -/
+theorem C12_split_characterised_nonvacuous :
+    SplitsTo isSpaceSep "a b".toList ["a b".toList] ∧ HasTopSep spaceMatchAfter "a b".toList ∧
+      splitTexRaw .space "a b".toList = ["a".toList, "b".toList] :=
+  ⟨SplitsTo.one _, ⟨"a".toList, [' '], "b".toList, by decide, by decide, by decide⟩, by decide +kernel⟩
+
+/-- the same for the stripped parts the call sites get -/
+theorem C12_split_maximal_stripped (sep : Sep) (s : Str) :
+    ∀ p ∈ splitTex sep s, ¬ HasTopSep
+      (match sep with
+        | .space => spaceMatchAfter
+        | .comma => commaMatchAfter
+        | .hyphen => hyphenMatchAfter
+        | .and => andMatchAfter) p := by
+  intro p hp
+  have key : ∀ q ∈ (splitTexRaw sep s).map strip, ¬ HasTopSep (matchAfterOf sep) q := by
+    intro q hq
+    obtain ⟨q0, hq0, rfl⟩ := List.mem_map.1 hq
+    rintro ⟨a, m, b, he, hd, hm⟩
+    obtain ⟨l, r, hq, hl, _⟩ := strip_decomp q0
+    have hlb : ∀ c ∈ l, c ≠ '{' := fun c hc => (isWs_not_brace (List.all_eq_true.1 hl c hc)).1
+    have h0 := C12_split_maximal sep s q0 hq0
+    apply h0
+    refine ⟨l ++ a, m, b ++ r, by rw [hq, he]; simp, ?_, ?_⟩
+    · rw [depthSat_append, depthSat_noOpen l hlb, hd]
+    · cases sep <;> simp only [matchAfterOf] at hm ⊢ <;> try exact hm
+      -- the default separator: a tie must still not follow a backslash
+      simp only [spaceMatchAfter] at hm ⊢
+      split at hm
+      · rename_i c
+        simp only [Bool.or_eq_true, Bool.and_eq_true, decide_eq_true_eq] at hm ⊢
+        rcases hm with hw | ⟨hc, hl2⟩
+        · exact Or.inl hw
+        · refine Or.inr ⟨hc, ?_⟩
+          cases a with
+          | nil =>
+            simp only [List.append_nil]
+            intro hbs
+            have := List.all_eq_true.1 hl '\\' (List.mem_of_getLast? hbs)
+            revert this; decide
+          | cons x y =>
+            rw [List.getLast?_append]
+            cases hgl : (x :: y).getLast? with
+            | none => simp at hgl
+            | some z => rw [hgl] at hl2; simpa using hl2
+      · cases hm
+  have hfin : ¬ HasTopSep (matchAfterOf sep) p := by
+    rw [(C12_split_strip sep s).1] at hp
+    split at hp
+    · exact key p (List.mem_filter.1 hp).1
+    · exact key p hp
+  clear key hp
+  cases sep <;> exact hfin
+
+theorem C12_split_maximal_stripped_nonvacuous :
+    splitTex .space " a\\~b  {c d}~e ".toList = ["a\\~b".toList, "{c d}".toList, "e".toList] := by decide +kernel
+
+/-! ### first letter, abbreviation, width (anchored mechanism; no clause of the statement) -/
+
+/-- `bibtex_first_letter`: the first token in scan order that is a special character with
+something after its backslash (answered in braces) or a letter; nothing if there is none.  A
+brace-level-0 backslash is not a special character and is skipped. -/
+theorem C12_first_letter_spec (o : CharOps) (s : Str) :
+    bibtexFirstLetterG o s = (scan s).map (Spec.firstLetterOf o.alpha) := by
+  simp only [bibtexFirstLetterG]
+  congr 1
+  funext toks
+  exact firstLetterAuxG_eq_spec o toks
+
+theorem C12_first_letter_spec_nonvacuous :
+    bibtexFirstLetterG uniOps "\\'Emile Zola".toList = some "E".toList ∧
+      bibtexFirstLetterG uniOps "{\\TeX} markup".toList = some "{\\TeX}".toList ∧
+      bibtexFirstLetterG uniOps "1{\\}Édouard".toList = some "É".toList ∧
+      bibtexFirstLetterG uniOps "123 {}".toList = some [] := by decide +kernel
+
+/-- without braces and backslashes the first letter is the first letter -/
+theorem C12_first_letter_plain (o : CharOps) (s : Str) (hs : ∀ c ∈ s, c ≠ '{' ∧ c ≠ '}' ∧ c ≠ '\\') :
+    bibtexFirstLetterG o s = some (match s.find? o.alpha with | some c => [c] | none => []) := by
+  rw [bibtexFirstLetterG, scan, scanM_plain s 0 (fun c hc => ⟨(hs c hc).1, (hs c hc).2.1⟩)]
+  exact congrArg some (firstLetterAuxG_plain o s 0 hs)
+
+theorem C12_first_letter_plain_nonvacuous :
+    (∀ c ∈ "12 d'Aviano".toList, c ≠ '{' ∧ c ≠ '}' ∧ c ≠ '\\') ∧
+      bibtexFirstLetterG uniOps "12 d'Aviano".toList = some "d".toList := ⟨by simp, by decide +kernel⟩
+
+/-- `bibtex_abbreviate`: the first letters of the top-level hyphen pieces (stripped), those without
+a letter skipped, in order, joined with the delimiter (default `.-`) -/
+theorem C12_abbreviate_spec (o : CharOps) (s r : Str) (delim : Option Str)
+    (h : bibtexAbbreviateG o s delim = some r) :
+    ∃ letters : List Str,
+      List.Forall₂ (fun piece l => bibtexFirstLetterG o piece = some l) (splitTex .hyphen s) letters ∧
+      r = joinWith (delim.getD ['.', '-']) (letters.filter (· ≠ [])) ∧
+      ∀ l ∈ letters.filter (· ≠ []), l ≠ [] := by
+  simp only [bibtexAbbreviateG] at h
+  cases hm : (splitTex .hyphen s).mapM (bibtexFirstLetterG o) with
+  | none => simp [hm] at h
+  | some letters =>
+    simp [hm] at h
+    refine ⟨letters, mapM_some_forall₂ _ _ _ hm, ?_, ?_⟩
+    · rw [← h]
+      congr 1
+      apply List.filter_congr
+      intro x _
+      simp
+    intro l hl
+    simpa using (List.mem_filter.1 hl).2
+
+theorem C12_abbreviate_spec_nonvacuous :
+    bibtexAbbreviateG uniOps "Jean--Pierre".toList none = some "J.-P".toList ∧
+      bibtexAbbreviateG uniOps "Jean-{\\'E}mile-{x-y}".toList (some ['.']) = some "J.{\\'E}.x".toList ∧
+      bibtexAbbreviateG uniOps "-A-".toList none = some "A".toList := by decide +kernel
+
+/-- `bibtex_width` of a string without braces: the sum of the character widths -/
+theorem C12_width_plain (w : Char → Int) (s : Str) (hs : ∀ c ∈ s, c ≠ '{' ∧ c ≠ '}') :
+    bibtexWidth w s = some (s.map w).sum := by
+  rw [bibtexWidth, scan, scanM_plain s 0 hs]
+  exact congrArg some (width_plain_toks w s 0 (Or.inl (by decide)))
+
+theorem C12_width_plain_nonvacuous :
+    (∀ c ∈ "abc".toList, c ≠ '{' ∧ c ≠ '}') ∧ bibtexWidthStd "abc".toList = some 1500 := ⟨by simp, by decide +kernel⟩
+
+/-- a closed special character: its two braces, plus the characters after the first one of its
+command (inner braces not counted), minus 1000 ("two braces") -/
+theorem C12_width_special (w : Char → Int) (body r : Str) (hb : balanced body = true)
+    (hm : maxDepth 1 body ≤ maxLevel) :
+    bibtexWidth w (['{', '\\'] ++ body ++ ['}'] ++ r) =
+      (bibtexWidth w r).map fun x => w '{' + (specialWidth w body - 1000) + w '}' + x := by
+  rw [bibtexWidth, bibtexWidth, scan_special body r hb hm]
+  cases scan r with
+  | none => rfl
+  | some t =>
+    simp only [Option.map_some, Option.some.injEq, List.foldl_cons]
+    rw [foldl_width_acc]
+    have h1 : widthTok w (['{'], 1) = w '{' := by simp [widthTok, startsWithBackslash]
+    have h2 : widthTok w ('\\' :: body, 1) = specialWidth w body - 1000 := by
+      simp [widthTok, startsWithBackslash, specialWidth]
+    have h3 : widthTok w (['}'], 0) = w '}' := by simp [widthTok]
+    rw [h1, h2, h3]
+    omega
+
+theorem C12_width_special_nonvacuous :
+    balanced "'c{d}".toList = true ∧ maxDepth 1 "'c{d}".toList ≤ maxLevel ∧
+      bibtexWidthStd "ab{\\'c{d}}".toList = some 2056 := by decide +kernel
 
 end Pybtex.Props
